@@ -177,6 +177,25 @@ def parse_cbmc_json_stream(path):
     return msgs, result, status, unwound
 
 
+def trace_values(trace):
+    """the kani::any() values of a counterexample, in call order, as little-endian byte strings
+    (what kani's concrete playback extracts: assignments of any_raw_internal's return value)"""
+    vals = []
+    for st in trace:
+        if st.get("stepType") != "assignment":
+            continue
+        lhs = st.get("lhs", "")
+        if not lhs.startswith("goto_symex$$return_value") or "any_raw_" not in lhs:
+            continue
+        v = st.get("value", {})
+        b = v.get("binary")
+        if b is None or "." in lhs.split("any_raw_")[-1]:
+            continue
+        n = len(b) // 8
+        vals.append(int(b, 2).to_bytes(n, "little").hex())
+    return vals
+
+
 class Job:
     def __init__(self, spec, build, workdir, tier):
         self.spec = spec          # registry.J
@@ -260,20 +279,22 @@ class Job:
         cmd = ["cbmc"] + CBMC_BASE + list(self.spec.cbmc or []) + ["--unwind", str(self.spec.unwind)]
         if us:
             cmd += ["--unwindset", ",".join("%s:%d" % kv for kv in sorted(us.items()))]
-        cmd += [self.goto, "--verbosity", "8", "--json-ui"]
+        cmd += [self.goto, "--verbosity", "8", "--json-ui", "--trace"]
         self.cbmc_cmd = cmd
         out = os.path.join(self.work, self.spec.harness + ".cbmc.json")
         timeout = self.spec.timeout_t if self.tier == "thorough" else self.spec.timeout_q
         timeout = int(timeout * float(os.environ.get("VERIF_TIME_SCALE", "1")))
         rc, _, secs, to = run(cmd, timeout=timeout, mem_gb=self.spec.mem_gb, out=out)
         msgs, result, status, unwound = parse_cbmc_json_stream(out)
-        try:
-            os.remove(out)
-        except OSError:
-            pass
+        if not os.environ.get("VERIF_KEEP_JSON"):
+            try:
+                os.remove(out)
+            except OSError:
+                pass
         r = self.res
         r["cbmc_s"] = round(r.get("cbmc_s", 0) + secs, 1)
         r["unwound_max"] = dict(sorted(unwound.items(), key=lambda kv: -kv[1])[:8])
+        r["unwound_all"] = unwound
         text = "\n".join(t for _, t in msgs)
         def grab(rx, conv=float, allm=False):
             ms = re.findall(rx, text)
@@ -292,6 +313,11 @@ class Job:
         if to:
             r["status"] = "timeout"
             r["detail"] = "cbmc exceeded %ds" % timeout
+            return None
+        if "ran out of memory" in text or status == "error" or any(p.get("status") not in ("SUCCESS", "FAILURE") for p in (result or [])):
+            # CBMC reports every undecided property as ERROR when the SAT back end dies: inconclusive, never a verdict
+            r["status"] = "oom" if "memory" in text.lower() else "error"
+            r["detail"] = "cbmc did not decide all properties (cProverStatus=%s): %s" % (status, " | ".join(t for ty, t in msgs if ty == "ERROR")[:300])
             return None
         if result is None:
             oom = "memory" in text.lower() or rc in (-6, -9, 134, 137) or "bad_alloc" in text
@@ -361,7 +387,7 @@ class Job:
             if cls == "unsupported_construct":
                 unsupported.append(p.get("description", ""))
                 continue
-            fails.append({"property": name, "class": cls, "description": p.get("description", ""),
+            fails.append({"property": name, "class": cls, "description": p.get("description", ""), "vals": trace_values(p.get("trace", [])),
                           "location": "%s:%s" % (p.get("sourceLocation", {}).get("file", "?"), p.get("sourceLocation", {}).get("line", "?")),
                           "function": p.get("sourceLocation", {}).get("function", "")})
         r["properties"] = n_props
@@ -370,7 +396,7 @@ class Job:
         self.unwind_failed = sorted(set(unwind_failed))
         if fails:
             r["status"] = "failed"
-            r["failures"] = fails[:20]
+            r["failures"] = fails[:12]
             r["discharged"] = n_props - len(fails) - len(unwind_failed) - len(unsupported)
             return "failed"
         if unsupported:
@@ -579,7 +605,11 @@ def drive(pid, prop, a, seed, scratch, t0):
                 cv.notify_all()
         log("  %-44s %-8s %6.1fs  props=%s steps=%s solver=%ss %s" % (
             job.spec.harness, r["status"], r.get("wall_s", 0), r.get("properties"), r.get("ssa_steps"), r.get("solver_s"),
-            r.get("detail", "")[:300].replace("\n", " ")))
+            (r.get("detail", "") or "; ".join("%s @%s" % (f["description"], f["location"].split("/")[-1]) for f in r.get("failures", [])[:4]))[:400].replace("\n", " ")))
+        if os.environ.get("VERIF_SHOW_LOOPS"):
+            for lp in getattr(job, "loops", []):
+                fn = lp.get("sourceLocation", {}).get("function", "") or lp["name"]
+                log("      loop %-110s bound=%s unwound=%s" % (fn[:110], getattr(job, "us", {}).get(lp["name"]), r.get("unwound_all", {}).get(lp["name"])))
         return r
 
     with ThreadPoolExecutor(max_workers=max(1, min(a.jobs, len(jobs)))) as ex:
@@ -594,9 +624,9 @@ def drive(pid, prop, a, seed, scratch, t0):
         if r["status"] != "failed":
             inconclusive.append((job.spec.harness, r["status"], r.get("detail", "")))
             continue
-        tests, raw = concrete_values(job, job.build)
+        tests = [{"class": f["class"], "description": f["description"], "vals": [bytes.fromhex(x) for x in f.get("vals", [])]} for f in r.get("failures", [])]
         if not tests:
-            inconclusive.append((job.spec.harness, "no-playback", "kani produced no concrete playback for the failure"))
+            inconclusive.append((job.spec.harness, "no-playback", "no counterexample trace for the failure"))
             r["status"] = "no-playback"
             continue
         seen_roles = set()
